@@ -96,6 +96,35 @@ def foldFilters (inputs : Inputs) : List (List Rule) → List Target → Except 
       | .error e => .error e
       | .ok ts' => foldFilters inputs fs ts'
 
+/-- a `FilterConfig` of the binding: name, type (`matching`) and the rules of its `config` -/
+structure FilterCfg where
+  name : Nat
+  type : Nat
+  rules : List Rule
+deriving DecidableEq, Repr
+
+/-- `DefaultScheduler.binding_filter_map`: cache key ↦ the filter object built first under that key (its rules) -/
+abbrev FilterEnv := List (Nat × List Rule)
+
+def envGet : FilterEnv → Nat → Option (List Rule)
+  | [], _ => none
+  | (k, r) :: rest, x => if k = x then some r else envGet rest x
+
+/-- `_get_binding_filter(config)`: build the filter on first use of its cache key, reuse it afterwards -/
+def getBindingFilter (env : FilterEnv) (c : FilterCfg) : FilterEnv × List Rule :=
+  match envGet env (filterCacheKey c.name c.type) with
+  | some r => (env, r)
+  | none => (env ++ [(filterCacheKey c.name c.type, c.rules)], c.rules)
+
+/-- the filter loop of `schedule()` on one scheduler: `for f in (self._get_binding_filter(f) for f in filters)`
+    (filters are looked up lazily: after an exception the later ones are not built) -/
+def scheduleFilters (inputs : Inputs) : FilterEnv → List FilterCfg → List Target → FilterEnv × Except MErr (List Target)
+  | env, [], ts => (env, .ok ts)
+  | env, c :: cs, ts =>
+      match getTargets (getBindingFilter env c).2 inputs ts with
+      | .error e => ((getBindingFilter env c).1, .error e)
+      | .ok ts' => scheduleFilters inputs (getBindingFilter env c).1 cs ts'
+
 /-- a rule matches a target for the job's inputs (the property's words) -/
 def Matches (r : Rule) (inputs : Inputs) (t : Target) : Prop :=
   r.deployment = t.deployment ∧ (r.service = none ∨ r.service = t.service) ∧
